@@ -2167,7 +2167,7 @@ class TargetRegistry:
             type_map[t] = handler
 
         if not exact:
-            for t in known_types:
+            for t in sorted(known_types, key=lambda t: t.__name__):
                 self._register_fuzzy_type(op_name, t, _type_tree=type_tree)
 
         self._op_type_map[op_name] = type_map
